@@ -32,7 +32,8 @@ def draw_dims(draw, overrides=None):
     kind, labs = draw(gen.label_set(d['n_cond']))
     d['cond'] = _unsort(labs)
     d['label_kind'] = kind
-    d['measure'] = draw(st.sampled_from(['euclidean', 'squared euclidean', None]))
+    # (the last one: what rank_transform leaves behind -- objects produced by earlier library calls)
+    d['measure'] = draw(st.sampled_from(['euclidean', 'squared euclidean', None, 'euclidean (ranks)']))
     d['cont'] = draw(gen.container)
     return d
 
@@ -134,7 +135,9 @@ def dataset(poisson=False):
         meas = _vals(draw, len(rows), nch)
         chan = _unsort(['v%d' % ((7 * i + 3) % 10) for i in range(nch)])
         return {'kind': 'dataset', 'meas': meas,
-                'odesc': {'cond': [c for c, _ in rows], 'run': [r + 1 for _, r in rows]},
+                'odesc': {'cond': [c for c, _ in rows], 'run': [r + 1 for _, r in rows],
+                          'trial': [(7 * i + 3) % len(rows) for i in range(len(rows))]
+                          if len(rows) % 7 else list(range(len(rows)))[::-1]},
                 'cdesc': {'chan': chan, 'roi': [('r2' if i % 2 == 0 else 'r1') for i in range(nch)]},
                 'desc': {'subj': 's1'}, 'cont': draw(gen.container)}
     return prov
@@ -561,7 +564,7 @@ spec('data.dataset.dataset_from_dict', data_dict=to_dict_of(one_of(D, T)))
 spec('data.dataset.load_dataset', filename=savedfile(one_of(D, T), 'pkl', 'h5'))
 spec('data.dataset.merge_subsets', dataset_list=listof(D, 1, 3))
 spec('data.ops.merge_datasets', sets=one_of(listof(D, 1, 3), listof(T, 1, 2)))
-spec('data.computations.average_dataset_by', by=lit('cond', 'run'))
+spec('data.computations.average_dataset_by', by=lit('cond', 'run', 'trial'))
 for _f in ('cov_from_measurements', 'cov_from_unbalanced', 'prec_from_measurements',
            'prec_from_unbalanced'):
     spec('data.noise.' + _f, dataset=one_of(D, D, listof(D, 2, 2)), obs_desc=const('cond'),
